@@ -47,7 +47,7 @@ func runC07(c *Ctx) {
 	suites := []uint16{gmtls.GMTLS_ECC_SM4_CBC_SM3, gmtls.GMTLS_ECC_SM4_GCM_SM3}
 	var faults []c07Fault
 	kinds := []string{"flip", "flip", "flip", "flip", "truncate", "extend", "swap", "dup", "drop", "inject-reverse", "inject-foreign", "hdr-type", "hdr-version", "hdr-length", "eos"}
-	n := c.Q(300, 4000)
+	n := c.Q(300, 24000)
 	for i := 0; i < n; i++ {
 		f := c07Fault{fromClient: i%2 == 0, k: r.Intn(6), kind: kinds[i%len(kinds)], arg: r.Intn(1 << 20)}
 		faults = append(faults, f)
